@@ -308,6 +308,8 @@ def gcd(*a):
 def lcm2(a, b):
     """Least common multiple of two integers."""
 
+    if not a or not b:
+        return 0
     return (a * b) // gcd(a, b)
 
 
